@@ -313,25 +313,33 @@ def check_wellformed(stage, config, result, text, exp=None):
                     repr(e)[:200]))
                 locs = []
             for l in locs:
-                bad = None
+                bads = []
                 if not isinstance(l, dict):
-                    bad = "not-dict"
+                    bads.append("not-dict")
                 else:
                     extra = sorted(set(l) - {"line", "column"})
                     if extra:
-                        bad = "key:" + ",".join(extra)
+                        bads.append("key:" + ",".join(extra))
+                    if extra == ["columne"] and "column" not in l:
+                        # the listed misspelling: the VALUES are judged all
+                        # the same (a wrong line or column under the misspelt
+                        # key is another defect, not this one)
+                        l = {"line": l.get("line"), "column": l["columne"]}
+                        extra = []
+                    if extra:
+                        pass
                     elif not (
                         type(l.get("line")) is int
                         and type(l.get("column")) is int
                         and l["line"] >= 1 and l["column"] >= 1
                     ):
-                        bad = "not-1-based-int"
+                        bads.append("not-1-based-int")
                     elif lines is not None and not (
                         l["line"] <= len(lines)
                         and l["column"] <= len(lines[l["line"] - 1]) + 1
                     ):
-                        bad = "outside-document"
-                if bad:
+                        bads.append("outside-document")
+                for bad in bads:
                     out.append(Violation(
                         props, "error_shape", (stage, "locations", bad),
                         repr(l)))
